@@ -426,17 +426,26 @@ func c18R4(c *Ctx, rule string) {
 			own := false
 			var others []string
 			for _, at := range AtomsAt(i) {
-				if at.Kind != "cmp" || at.Op != token.NEQ {
-					continue
-				}
-				for _, side := range []ssa.Value{at.X, at.Y} {
-					if fv, _ := loadedField(side); fv != nil && isNilConst(otherSide(at, side)) {
-						if fv.Name() == key {
-							own = true
-						} else if _, isKey := c18Spec[fv.Name()]; isKey {
-							others = append(others, fv.Name())
+				classified := false
+				if at.Kind == "cmp" && at.Op == token.NEQ {
+					for _, side := range []ssa.Value{at.X, at.Y} {
+						if fv, _ := loadedField(side); fv != nil && isNilConst(otherSide(at, side)) {
+							classified = true
+							if fv.Name() == key {
+								own = true
+							} else if _, isKey := c18Spec[fv.Name()]; isKey {
+								others = append(others, fv.Name())
+							}
 						}
 					}
+				}
+				// err == nil of an earlier database call is the only other condition a Put may depend on
+				if at.Kind == "cmp" && at.Op == token.EQL && (isNilConst(at.X) || isNilConst(at.Y)) && strings.Contains(at.String(), "bbolt") {
+					classified = true
+				}
+				if !classified {
+					// any condition on the VALUE of a field (e.g. *u.F != 0) makes some updates silently disappear
+					others = append(others, "condition "+at.String())
 				}
 			}
 			// error propagated
